@@ -57,7 +57,7 @@ type Term struct {
 	name   string // for vars
 }
 
-const maxTerms = 12_000_000
+const maxTerms = 5_000_000
 
 type tkey struct {
 	op         Op
